@@ -384,6 +384,8 @@ def check(ctx, R):
     R.run("C01.d", rule_d, ctx)
     R.run("C01.e", rule_e, ctx)
     R.run("C01.f", rule_f, ctx)
+    from . import preds
+    R.run("C01.p", lambda R, c: preds.rule(R, c, "C01.p", ["detect_conflict", "is_missing"]), ctx)
     from . import c02
     R.run("C01.g", lambda R, c: c02.rule_a(R, c, "C01.g.frontier"), ctx)
     R.run("C01.g", lambda R, c: c02.rule_b2(R, c, "C01.g.missing"), ctx)
